@@ -55,6 +55,9 @@ class Harness:
         ops, _ = opcode_registry(repo)
         self.opname = {oc.cls.name: oc.opname for oc in ops}
         self.by_name = {o.name: o for o in pickletools.opcodes}
+        co = repo.cls("fickling.fickle.ConstantOpcode")
+        self.const_classes = {c.name for c in repo.subclasses(co, strict=True)}
+        self.const_opnames = {self.opname[c] for c in self.const_classes if c in self.opname}
 
     # ---- abstract Pickled object
     def new_self(self, tokens: List[Tok]) -> Record:
@@ -150,11 +153,11 @@ class Harness:
                 if cname in ("Get", "Put", "BinGet", "BinPut", "LongBinGet", "LongBinPut"):
                     return Tok(h.opname[cname], args[0] if args else None, cname)
                 return Tok(h.opname[cname], args[0] if args else None, cname)
-            if name == "ConstantOpcode.new":
+            if last == "new" and len(parts) == 2 and (parts[0] == "ConstantOpcode" or parts[0] in h.const_classes):
                 v = args[0]
                 if isinstance(v, (list, dict, tuple, set)) or v is None:
                     raise PyRaise("ValueError")
-                return Tok("CONST", v, "ConstantOpcode")
+                return Tok("CONST", v, parts[0])
             if name == "Interpreter":
                 snap = tuple(repr(t) for t in args[0].fields["tokens"])
                 r = Record("Interpreter", {"memory": MemoryView(snap), "ran": False})
@@ -183,6 +186,9 @@ class VMError(Exception):
     pass
 
 
+CONST_OPNAMES: set = set()
+
+
 def run_tokens(tokens: List[Tok], by_name) -> Dict[str, Any]:
     stack: List[Any] = []
     memo: Dict[Any, Any] = {}
@@ -205,8 +211,8 @@ def run_tokens(tokens: List[Tok], by_name) -> Dict[str, Any]:
             stack.append(("global",) + tuple(t.arg))
         elif op == "MARK":
             stack.append(mark)
-        elif op in ("CONST", "INT"):
-            stack.append(("const", t.arg))
+        elif op in ("CONST", "INT") or op in CONST_OPNAMES:
+            stack.append(("const", t.arg if not isinstance(t.arg, bytes) or op in ("CONST",) else t.arg))
         elif op in ("TUPLE", "LIST", "DICT"):
             items = []
             while True:
@@ -277,8 +283,8 @@ def _intkey(a):
 
 
 # ------------------------------------------------------------------ the check
-def base_tokens() -> List[Tok]:
-    return [Tok("PROTO", 4, "Proto"), Tok("FRAME", 10, "Frame"), Tok("BODY"), Tok("STOP", None, "Stop")]
+def base_tokens(header=("PROTO", "FRAME")) -> List[Tok]:
+    return [Tok(hh, 4, hh.title()) for hh in header] + [Tok("BODY"), Tok("STOP", None, "Stop")]
 
 
 def _value_of(v):
@@ -297,6 +303,17 @@ def _value_of(v):
 def run(rep: Report, tier: str):
     repo = load_repo()
     h = Harness(repo)
+    CONST_OPNAMES.clear()
+    CONST_OPNAMES.update(h.const_opnames)
+    # constant classes whose encoder does not round-trip (from C15's live analysis)
+    from . import c15 as _c15
+
+    tmp = Report("C15", tier)
+    _c15.check_wire(repo, tmp)
+    _c15.check_text_escape(repo, tmp)
+    bad_encoders = {f.construct.split(".")[-1] for f in tmp.findings if f.rule == "C15.wire-format"}
+    if any(f.rule == "C15.text-escape" for f in tmp.findings):
+        bad_encoders.add("Unicode")
     rep.explanation = (
         "Each injection helper of Pickled is interpreted over an abstract opcode list [PROTO, FRAME, BODY, STOP] (BODY = any "
         "base pickle body, [] -> [obj]); the token sequence it produces is run on a symbolic VM with pickletools' stack "
@@ -305,7 +322,7 @@ def run(rep: Report, tier: str):
         "the stack are not decided."
     )
     rep.exhaustive = True
-    rep.rule("C08.once", "exactly one REDUCE applies the injected callable to exactly the given arguments", 8)
+    rep.rule("C08.once", "exactly one REDUCE applies the injected callable to exactly the given arguments", 16)
     rep.rule("C08.balanced", "stack at STOP is [obj] (keep) / [result] (replace)", 8)
     rep.rule("C08.stop-last", "single trailing STOP; helpers refuse a pickle that does not end in STOP", 5)
     rep.rule("C08.memo-read", "every GET reads a key written by the template itself", 8)
@@ -324,20 +341,23 @@ def run(rep: Report, tier: str):
     cases.append(("append_python", "pop_result=True,two-args", ["a", 2], dict(pop_result=True), "keep"))
     cases.append(("append_python", "pop_result=True,list-arg", [["x", 1]], dict(pop_result=True), "keep"))
     cases.append(("insert_function_call_on_unpickled_object", "constant_args=[[1, 2]]", ["def injected_fn(obj): return obj"], dict(constant_args=[[1, 2]], compile_code=False), "function"))
-    for idx in (-1, 0, 1, 2, 3):
+    for idx in (-1, 0, 1, "before-stop"):
         cases.append(("insert_magic_int", f"index={idx}", [1234, idx], {}, "magic"))
     for cc in (False, True):
         for ca in (None, [7, "s"]):
             cases.append(("insert_function_call_on_unpickled_object", f"compile_code={cc},constant_args={ca}", ["def injected_fn(obj): return obj"], dict(constant_args=ca, compile_code=cc), "function"))
 
     n_eval = 0
-    for helper, label, args, kw, mode in cases:
+    cases = [(hp, lb, a, k, m, hd) for (hp, lb, a, k, m) in cases for hd in (("PROTO", "FRAME"), ())]
+    for helper, label0, args, kw, mode, header in cases:
+        label = f"{label0},header={'+'.join(header) or 'none'}"
+        args = [len(header) + 1 if a == "before-stop" else a for a in args] if helper == "insert_magic_int" else args
         f = repo.find_method(h.pk, helper) or (repo.find_method(h.pk, dotted(h.pk.attrs[helper])) if helper in h.pk.attrs else None)
         if f is None:
             raise AnalysisError(f"Pickled.{helper} not found")
         q = f"{P}.{helper}"
         where = f"{f.file}:{f.line}"
-        toks = base_tokens()
+        toks = base_tokens(header)
         me = h.new_self(toks)
         try:
             ret = h.call_method(me, helper, list(args), dict(kw))
@@ -350,15 +370,19 @@ def run(rep: Report, tier: str):
         seq = " ".join(repr(t) for t in toks)
         # ---- stop-last
         if toks[-1].op != "STOP" or sum(1 for t in toks if t.op == "STOP") != 1:
-            rep.bad("C08.stop-last", q, f"stop-not-last:{label.split(',')[0]}", f"[{label}] the rewritten pickle is `{seq}`: it does not end with its single STOP", f.file, f.line)
+            rep.bad("C08.stop-last", q, f"stop-not-last:{label0.split(',')[0]}", f"[{label}] the rewritten pickle is `{seq}`: it does not end with its single STOP", f.file, f.line)
             continue
         rep.ok("C08.stop-last", q, f"[{label}] ends with its single STOP", where)
+        hand_picked = [t for t in toks if (t.op == "CONST" and t.cls not in ("ConstantOpcode",) and t.cls in bad_encoders) or (t.op in CONST_OPNAMES and t.cls in bad_encoders)]
+        if hand_picked:
+            rep.bad("C08.once", q, f"argument-encoder:{hand_picked[0].cls}", f"[{label}] the argument {hand_picked[0].arg!r} is encoded with the hand-picked opcode class {hand_picked[0].cls}, whose encoder is known not to round-trip (C15): the injected call receives a different argument", f.file, f.line)
+            continue
         # ---- run on the template VM
         try:
             res = run_tokens(toks, h.by_name)
         except VMError as e:
             kind = "C08.memo-read" if "GET" in str(e) else "C08.balanced"
-            rep.bad(kind, q, f"vm-error:{helper}:{label}", f"[{label}] the rewritten pickle `{seq}` fails on the pickle VM: {e}", f.file, f.line)
+            rep.bad(kind, q, f"vm-error:{helper}:{label0}", f"[{label}] the rewritten pickle `{seq}` fails on the pickle VM: {e}", f.file, f.line)
             continue
         rep.ok("C08.memo-read", q, f"[{label}] every GET reads a key the template wrote", where)
         stack, reduces = res["stack"], res["reduces"]
@@ -377,23 +401,23 @@ def run(rep: Report, tier: str):
             if stack == ["obj"] and not reduces:
                 rep.ok("C08.balanced", q, f"[{label}] INT/POP pair is net-zero: stack at STOP is [obj]", where)
             else:
-                rep.bad("C08.balanced", q, f"unbalanced:{label}", f"[{label}] stack at STOP is {stack!r} (expected [obj]); sequence `{seq}`", f.file, f.line)
+                rep.bad("C08.balanced", q, f"unbalanced:{label0}", f"[{label}] stack at STOP is {stack!r} (expected [obj]); sequence `{seq}`", f.file, f.line)
             continue
         if mode == "keep":
             if stack != ["obj"]:
-                rep.bad("C08.balanced", q, f"unbalanced:{label}", f"[{label}] stack at STOP is {stack!r}, expected exactly [obj]: the VM returns / leaves something other than the original object; sequence `{seq}`", f.file, f.line)
+                rep.bad("C08.balanced", q, f"unbalanced:{label0}", f"[{label}] stack at STOP is {stack!r}, expected exactly [obj]: the VM returns / leaves something other than the original object; sequence `{seq}`", f.file, f.line)
             else:
                 rep.ok("C08.balanced", q, f"[{label}] stack at STOP is [obj]", where)
         elif mode in ("replace", "function"):
             if len(stack) == 1 and isinstance(stack[0], tuple) and stack[0][0] == "result" and stack[0][1] == len(reduces) - 1:
                 rep.ok("C08.balanced", q, f"[{label}] stack at STOP is [result of the injected call]", where)
             else:
-                rep.bad("C08.balanced", q, f"unbalanced:{label}", f"[{label}] stack at STOP is {stack!r}, expected exactly [result of the injected call]; sequence `{seq}`", f.file, f.line)
+                rep.bad("C08.balanced", q, f"unbalanced:{label0}", f"[{label}] stack at STOP is {stack!r}, expected exactly [result of the injected call]; sequence `{seq}`", f.file, f.line)
         elif mode == "append-keep-value":
             if len(stack) == 1:
                 rep.ok("C08.balanced", q, f"[{label}] one value at STOP", where)
             else:
-                rep.bad("C08.balanced", q, f"unbalanced:{label}", f"[{label}] stack at STOP is {stack!r}: the appended call's value is kept on top of the original object, which stays below it - the VM stack is not empty after STOP pops the result (property: 'leaves the VM stack empty at STOP')", f.file, f.line)
+                rep.bad("C08.balanced", q, f"unbalanced:{label0}", f"[{label}] stack at STOP is {stack!r}: the appended call's value is kept on top of the original object, which stays below it - the VM stack is not empty after STOP pops the result (property: 'leaves the VM stack empty at STOP')", f.file, f.line)
         # ---- once
         if mode == "function":
             fn_calls = [(fn, a) for fn, a in reduces if isinstance(fn, tuple) and fn[0] == "result"]
@@ -408,14 +432,14 @@ def run(rep: Report, tier: str):
             if ok and len(defs) == 1:
                 rep.ok("C08.once", q, f"[{label}] one exec of the definition, one call fn(obj{', *constant_args' if kw.get('constant_args') else ''})", where)
             else:
-                rep.bad("C08.once", q, f"call-count:{label}", f"[{label}] REDUCEs performed: {reduces!r}; expected one exec of the definition and exactly one application of the function to (obj, *constant_args)", f.file, f.line)
+                rep.bad("C08.once", q, f"call-count:{label0}", f"[{label}] REDUCEs performed: {reduces!r}; expected one exec of the definition and exactly one application of the function to (obj, *constant_args)", f.file, f.line)
             continue
         mod, attr = kw.get("module", "builtins"), kw.get("attr", "exec" if helper == "insert_python_exec" else "eval")
         mine = [(fn, a) for fn, a in reduces if isinstance(fn, tuple) and fn[:3] == ("global", mod, attr)]
         if len(mine) == 1 and len(reduces) == 1 and list(_value_of(mine[0][1])) == list(args):
             rep.ok("C08.once", q, f"[{label}] exactly one REDUCE of {mod}.{attr} with the given arguments", where)
         else:
-            rep.bad("C08.once", q, f"call-count:{label}", f"[{label}] REDUCEs performed: {[(fn, _value_of(a)) for fn, a in reduces]!r}; expected exactly one call of {mod}.{attr}{tuple(args)!r}", f.file, f.line)
+            rep.bad("C08.once", q, f"call-count:{label0}", f"[{label}] REDUCEs performed: {[(fn, _value_of(a)) for fn, a in reduces]!r}; expected exactly one call of {mod}.{attr}{tuple(args)!r}", f.file, f.line)
     rep.extra["template_cases_evaluated"] = n_eval
     # ---- helpers refuse a list that does not end in STOP
     for helper in ("insert_python", "append_python", "insert_function_call_on_unpickled_object"):
